@@ -72,8 +72,70 @@ pub fn property() -> Property {
       Scenario { id: 7, name: "async wait for acknowledgments", quick: 1_000, thorough: 100_000, max_len: 80, max_threads: 0 },
     ],
     run,
-    exhaustive: None,
+    exhaustive: Some(exhaustive),
   }
+}
+
+/// Exhaustive enumeration of all schedules (every switch / no-switch decision at
+/// every yield point that occurs) for small traffic scripts.
+pub fn exhaustive(thorough: bool) -> ExhaustiveReport {
+  let mut rep = ExhaustiveReport {
+    name: "all schedules (every switch/no-switch decision at every yield point reached) of the reader scenarios for traffic scripts of 1-2 datagrams (quick: scenarios 0 and 3, one DATA)",
+    cases: 0,
+    nontrivial: 0,
+    complete: true,
+    violation: None,
+    samples: Vec::new(),
+  };
+  let combos: Vec<(u32, usize)> = if thorough {
+    let mut v = Vec::new();
+    for sc in 0..6u32 {
+      for script in [0usize, 2, 3] {
+        v.push((sc, script));
+      }
+    }
+    v
+  } else {
+    vec![(0, 0), (3, 0)]
+  };
+  let budget_per_combo: u64 = if thorough { 40_000 } else { 600 };
+  for (sc, script) in combos {
+    // depth-first over decision prefixes; a decision byte 255 = switch, 0 = stay
+    let mut stack: Vec<Vec<u8>> = vec![vec![]];
+    let mut runs = 0u64;
+    while let Some(prefix) = stack.pop() {
+      if runs >= budget_per_combo {
+        rep.complete = false;
+        break;
+      }
+      let mut o = Outcome::new();
+      reader_case(sc, script, &prefix, &mut o);
+      runs += 1;
+      rep.cases += 1;
+      if o.nontrivial {
+        rep.nontrivial += 1;
+      }
+      if o.is_violation() && rep.violation.is_none() {
+        let mut bytes = vec![sc as u8, script as u8];
+        bytes.extend_from_slice(&prefix);
+        rep.violation = Some((bytes, 9999, o));
+        return rep;
+      }
+      // number of yield points reached in this run
+      let n = o.sample.matches("\"C").count() + o.sample.matches("\"P").count();
+      // children: keep the prefix, stay at the following positions, switch at position i
+      for i in (prefix.len()..n).rev() {
+        let mut child = prefix.clone();
+        child.resize(i, 0);
+        child.push(255);
+        stack.push(child);
+      }
+      if rep.samples.len() < 3 && runs == 7 {
+        rep.samples.push(o.sample.clone());
+      }
+    }
+  }
+  rep
 }
 
 struct FlagWaker {
@@ -98,9 +160,8 @@ enum Traffic {
   Heartbeat(i64, i64, i32),
 }
 
-fn gen_traffic(c: &mut Choices) -> (Vec<Traffic>, BTreeSet<i64>) {
+fn gen_traffic(script: usize) -> (Vec<Traffic>, BTreeSet<i64>) {
   // small scripts in which the last datagram may be the one that releases samples
-  let script = c.pick(7);
   let t = match script {
     0 => vec![Traffic::Data(1)],
     1 => vec![Traffic::Data(1), Traffic::Data(2)],
@@ -176,11 +237,17 @@ fn reader_qos() -> QosPolicies {
 
 /// Scenarios 0-5. Returns Err((clause, key, detail)).
 fn reader_scenario(scenario: u32, c: &mut Choices, o: &mut Outcome) {
-  let (traffic, deliverable) = gen_traffic(c);
+  let script = c.pick(7);
   let sched_bytes: Vec<u8> = {
     let n = c.usize_in(0, 60);
     c.bytes(n)
   };
+  reader_case(scenario, script, &sched_bytes, o);
+}
+
+fn reader_case(scenario: u32, script: usize, sched_bytes: &[u8], o: &mut Outcome) {
+  let (traffic, deliverable) = gen_traffic(script);
+  let sched_bytes: Vec<u8> = sched_bytes.to_vec();
   o.sample = format!("scenario={scenario} traffic={traffic:?} schedule={sched_bytes:?}");
   o.digest = fnv(o.sample.as_bytes());
   let sched = Sched::new(&sched_bytes, CONSUMER);
@@ -763,6 +830,12 @@ pub fn run(scenario: u32, choices: &[u8], _strict: bool) -> Outcome {
   match scenario {
     0..=5 => reader_scenario(scenario, &mut c, &mut o),
     6 | 7 => writer_scenario(scenario, &mut c, &mut o),
+    9999 => {
+      // replay of one schedule of the exhaustive enumeration: [scenario, script, decisions...]
+      let sc = u32::from(choices.first().copied().unwrap_or(0));
+      let script = usize::from(choices.get(1).copied().unwrap_or(0));
+      reader_case(sc, script, choices.get(2..).unwrap_or(&[]), &mut o);
+    }
     _ => o.verdict = Verdict::Discard("unknown scenario".into()),
   }
   o
